@@ -68,13 +68,16 @@ def stepOp (st : St) (toks : List String) : St :=
     match r with
     | some c => { st with cfg := c }
     | none => corrFail st "bad cfg line"
-  | ["dg", ep, dat, src, loc, now] =>
+  | "dg" :: ep :: dat :: src :: loc :: now :: flags =>
     match parseEp ep, tokB dat, parseAddr src, parseOptAddr loc, now.toInt? with
     | some ep, some dat, some src, some loc, some now =>
+      -- flag `x`: the harness declares the datagram outside the model (non-ASCII digits / blanks in MX or
+      -- CACHE-CONTROL): only "no raise" is judged and the implementation's tracker state is adopted
+      let declared := flags.contains "x"
       -- is a value outside the model involved (URL outside the grammar)?
       let unk := match protocolRecv genFixes st.cfg.prefixes dat loc src now with
-        | .ok (some (_, h)) => hasUnk h
-        | _ => false
+        | .ok (some (_, h)) => hasUnk h || declared
+        | _ => declared
       { st with pendRes := some (recv genFixes st.cfg ep st.tr dat loc src now),
                 pendClass := classify st.cfg ep dat loc src now, pendUnk := unk }
     | _, _, _, _, _ => corrFail st "bad dg line"
